@@ -38,8 +38,12 @@ func TestC12ReEncodeForms(t *testing.T) {
 		collectLeaves(root, "", nil, "", 0, &ls, &arrs)
 		k := rapid.IntRange(1, 3).Draw(rt, "rewrites")
 		var done []string
+		rewritten := map[string]bool{}
 		for i := 0; i < k; i++ {
 			l := ls[rapid.IntRange(0, len(ls)-1).Draw(rt, "leaf")]
+			if rewritten[l.path] {
+				continue // one re-writing per leaf
+			}
 			get := func() any {
 				if m, ok := l.parent.(map[string]any); ok {
 					return m[l.key]
@@ -107,6 +111,7 @@ func TestC12ReEncodeForms(t *testing.T) {
 				continue
 			}
 			done = append(done, l.path+":"+form)
+			rewritten[l.path] = true
 		}
 		if len(done) == 0 {
 			rt.Skip("no re-writing applies to the drawn leaves")
